@@ -3,13 +3,8 @@
 NOTE_COMMON = ("Trusted: Lean kernel, axioms propext/Classical.choice/Quot.sound only (audited each run), the "
                "correspondence harness + generators, the stub-header from-source build; ")
 
-CHECKS = {
-    "C22": {
-        "technique": "Lean 4 proof (induction: stable-sort invariant over runs/merge passes) + exact differential correspondence with the compiled macros",
-        "text": "mjSORT / insertion sort: proved for every length and every total-preorder comparator that the model returns a sorted permutation preserving every ordered subsequence (stability); mjPARTIAL_SORT modelled (heap ops) and tied by exact correspondence. The model is hand-written; the tie is a differential run of the unmodified macros of engine_sort.h against the compiled Lean model (exhaustive small scope + seeded random around run boundaries).",
-        "note": NOTE_COMMON + "model abstracts the ping-pong buffers to lists of runs (index arithmetic covered by the correspondence only); partial-sort theorem pending (correspondence + oracle only).",
-    },
-}
+# property ids whose check module exists but is not claimed (kept out of MANIFEST.checks)
+DISABLED = set()
 
 HOOK_COMMITS = []
 
